@@ -958,7 +958,11 @@ func (e *Engine) exec(st *State, f *Frame, ins ssa.Instruction) {
 		et := i.Type().Underlying().(*types.Slice).Elem()
 		if !cp.k {
 			// allocate up to the maximal feasible capacity bound we can justify cheaply
-			ub, ok := e.maxValue(st, cp, 4096)
+			lim := uint64(4096)
+			if b, isB := et.Underlying().(*types.Basic); isB && b.Kind() == types.Uint8 {
+				lim = 1 << 16
+			}
+			ub, ok := e.maxValue(st, cp, lim)
 			if !ok {
 				// a capacity taken from untrusted input (make([]T, 0, wireCount)): modelled with cap == len;
 				// appends then reallocate, which differs from Go only in the aliasing of spare capacity
@@ -1194,6 +1198,11 @@ func heurUB(st *State, t *Term, depth int) (uint64, bool) {
 
 func (e *Engine) newSlice(st *State, et types.Type, n int, ln, cp *Term) SliceV {
 	es := slotsOf(et)
+	if b, ok := et.Underlying().(*types.Basic); ok && b.Kind() == types.Uint8 && n > 512 {
+		// large byte buffers are held as one SMT array (all zero)
+		o := &Object{typ: types.NewArray(et, int64(n)), n: n, arr: ConstArr(0)}
+		return SliceV{obj: st.alloc(o), off: BV(64, 0), ln: ln, cap: cp, es: 1}
+	}
 	o := &Object{typ: types.NewArray(et, int64(n)), n: n * es}
 	z := flatten(et, zeroValue(et), nil)
 	for k := 0; k < n; k++ {
@@ -1692,8 +1701,23 @@ func (e *Engine) convert(st *State, from, to types.Type, v Value, pos token.Pos)
 				return BV(toW, uint64(f))
 			}
 		}
-		modelsUsed["floating point on symbolic operands -> unconstrained value"]++
-		return e.internalVar("float", toW)
+		modelsUsed["floating point on symbolic operands: SMT FloatingPoint theory (IEEE 754, RNE)"]++
+		switch {
+		case isFloatType(from) && isFloatType(to):
+			if t.w == toW {
+				return t
+			}
+			r := e.internalVar("float", toW)
+			e.assume(st, FPCvt(r, t))
+			return r
+		case isFloatType(to):
+			r := e.internalVar("float", toW)
+			e.assume(st, FPFromInt(fsigned, r, t))
+			return r
+		default:
+			_, tsigned, _ := intWidth(to)
+			return FPToInt(tsigned, toW, t)
+		}
 	}
 	panic(unsupported{fmt.Sprintf("convert %v -> %v", from, to)})
 }
@@ -2017,7 +2041,7 @@ func (e *Engine) invoke(st *State, fv Value, args []Value, call *ssa.Call, pos t
 		return
 	}
 	name := fn.fn.String()
-	if !e.tolerant && !e.symbolicText && fn.fn.Name() == "String" && len(args) == 1 && isStringMethod(fn.fn) && e.hasSymbolic(st, args[0], 0, map[ObjID]bool{}) {
+	if !e.tolerant && !e.symbolicText && fn.fn.Name() == "String" && len(args) == 1 && isStringMethod(fn.fn) && (alwaysOpaqueString[name] || e.hasSymbolic(st, args[0], 0, map[ObjID]bool{})) {
 		// environment model (DESIGN 3.6): text rendering of a value with symbolic fields is an opaque,
 		// non-empty string; nothing is claimed about rendered text
 		modelsUsed["String() of a value with symbolic fields -> opaque string"]++
@@ -2048,6 +2072,9 @@ func (e *Engine) invoke(st *State, fv Value, args []Value, call *ssa.Call, pos t
 	}
 	if m, ok := lookupModel(fn.fn); ok {
 		r := m(e, st, args, call, pos)
+		if _, none := r.(noModel); none {
+			goto interpret
+		}
 		if tc, isTC := r.(tailCall); isTC {
 			e.invoke(st, tc.fn, tc.args, call, pos)
 			return
@@ -2065,6 +2092,7 @@ func (e *Engine) invoke(st *State, fv Value, args []Value, call *ssa.Call, pos t
 		setRes(r)
 		return
 	}
+interpret:
 	if e.tolerant && fn.fn.Synthetic == "package initializer" {
 		pp := fn.fn.Pkg.Pkg.Path()
 		if !initAllowed(pp) {
@@ -2507,6 +2535,9 @@ func (e *Engine) copyOp(st *State, dst SliceV, src Value, pos token.Pos) Value {
 		if !ok {
 			sl, ok2 := e.strToSlice(st, x)
 			if !ok2 {
+				if e.abandonToStringMethod(st) {
+					panic(resumeStep{})
+				}
 				panic(unsupported{"copy from opaque string"})
 			}
 			return e.copyOp(st, dst, sl, pos)
@@ -2601,6 +2632,31 @@ var shortRe = regexp.MustCompile(`[A-Za-z0-9_.\-]+/`)
 
 // shortFnName strips import-path directories: (*github.com/osrg/gobgp/v4/pkg/packet/bgp.X).M -> (*bgp.X).M
 func shortFnName(name string) string { return shortRe.ReplaceAllString(name, "") }
+
+// abandonToStringMethod: text rendering that ends up copying an opaque string (the rendering of a
+// value with symbolic fields) is itself opaque: the innermost enclosing String() method of a gobgp
+// type returns an opaque string to its caller. Deferred calls of the abandoned frames are not run
+// (rendering code defers nothing that matters to the harness).
+func (e *Engine) abandonToStringMethod(st *State) bool {
+	if e.symbolicText || e.tolerant {
+		return false
+	}
+	for k := len(st.frames) - 1; k >= 1; k-- {
+		f := st.frames[k]
+		if isStringMethod(f.fn) && f.call != nil {
+			st.frames = st.frames[:k]
+			st.top().env[f.call] = StringV{opaque: true, nonEmpty: true}
+			modelsUsed["String() of a value with symbolic fields -> opaque string"]++
+			return true
+		}
+	}
+	return false
+}
+
+// renderings that only feed logs: never interpreted
+var alwaysOpaqueString = map[string]bool{
+	"(*github.com/osrg/gobgp/v4/internal/pkg/table.Path).String": true,
+}
 
 func isStringMethod(fn *ssa.Function) bool {
 	sig := fn.Signature
@@ -2710,13 +2766,26 @@ func (e *Engine) floatBinop(st *State, i *ssa.BinOp, a, b *Term) Value {
 			return Bool(x >= y)
 		}
 	}
-	modelsUsed["floating point on symbolic operands -> unconstrained value"]++
+	modelsUsed["floating point on symbolic operands: SMT FloatingPoint theory (IEEE 754, RNE)"]++
 	switch i.Op {
-	case token.EQL, token.NEQ, token.LSS, token.LEQ, token.GTR, token.GEQ:
-		if a == b && (i.Op == token.LEQ || i.Op == token.GEQ || i.Op == token.EQL) {
-			// x op x is true unless NaN; leave unconstrained
-		}
-		return e.internalVar("fcmp", 0)
+	case token.EQL:
+		return FPCmp("eq", a, b)
+	case token.NEQ:
+		return Not(FPCmp("eq", a, b))
+	case token.LSS:
+		return FPCmp("lt", a, b)
+	case token.LEQ:
+		return FPCmp("leq", a, b)
+	case token.GTR:
+		return FPCmp("gt", a, b)
+	case token.GEQ:
+		return FPCmp("geq", a, b)
 	}
-	return e.internalVar("float", a.w)
+	op := map[token.Token]string{token.ADD: "add", token.SUB: "sub", token.MUL: "mul", token.QUO: "div"}[i.Op]
+	if op == "" {
+		panic(unsupported{"float operator " + i.Op.String()})
+	}
+	r := e.internalVar("float", a.w)
+	e.assume(st, FPArith(op, r, a, b))
+	return r
 }
